@@ -716,6 +716,28 @@ class Interp:
             return native(lambda interp, a, k, node: None)
         self.unsupported(n, f"super().{n.attr} resolves outside the package")
 
+    def _ctor_default(self, ci, attr):
+        for c in self.mro(ci):
+            init = c.methods.get("__init__")
+            if init is None:
+                continue
+            selfname = init.node.args.args[0].arg if init.node.args.args else "self"
+            for st in init.node.body:
+                tgt = val = None
+                if isinstance(st, ast.AnnAssign) and st.value is not None:
+                    tgt, val = st.target, st.value
+                elif isinstance(st, ast.Assign) and len(st.targets) == 1:
+                    tgt, val = st.targets[0], st.value
+                if isinstance(tgt, ast.Attribute) and tgt.attr == attr and isinstance(tgt.value, ast.Name) and tgt.value.id == selfname:
+                    if isinstance(val, ast.Constant):
+                        return val.value
+                    if isinstance(val, ast.Dict) and not val.keys:
+                        return {}
+                    if isinstance(val, ast.List | ast.Tuple) and not val.elts:
+                        return [] if isinstance(val, ast.List) else ()
+                    return _MISSING
+        return _MISSING
+
     def getattr(self, base, attr, node, m=None):
         if isinstance(base, ModVal):
             v = self.module_global(base.m, attr)
@@ -759,6 +781,13 @@ class Interp:
             hook = self.hooks.get(f"attr:{attr}")
             if hook:
                 return hook(self, base, attr, node)
+            if base.cls is not None:
+                # an object a check built by hand carries the attributes the check cares about; any other attribute
+                # has the value the class's own constructor gives it unconditionally (a literal), as on a real object
+                v = self._ctor_default(base.cls, attr)
+                if v is not _MISSING:
+                    base.attrs[attr] = v
+                    return v
             raise Raised("AttributeError", (attr,), node, BUILTIN_EXC["AttributeError"])
         if isinstance(base, Sym):
             if attr in base.attrs:
@@ -1082,7 +1111,13 @@ class Interp:
             import copy as _c
             return _c.copy(args[0]) if not isinstance(args[0], Sym | SymStr | Obj) else args[0]
         if dotted == "re.Scanner":
-            return Sym("re.Scanner", truthy=True)
+            def _scan(interp, a, k, n):
+                # the package's scanner is what parse_expression wraps: a check that models one models the other
+                h = interp.hooks.get("fnname:parse_expression")
+                if h is None:
+                    interp.unsupported(n, "method scan on abstract value <re.Scanner>")
+                return h(interp, a, k, n)
+            return Sym("re.Scanner", truthy=True, attrs={"scan": _scan})
         if dotted in ("collections.defaultdict",):
             d = DDict()
             d.factory = args[0] if args else None
